@@ -21,9 +21,9 @@ def run(ctx):
         h = st['hist']
         if len(h) != maxops:
             continue
-        cases.append({'mode': 'record', 'torn': True, 'steps': h, 'warm': ctx.rng.choice([0, 0, 7, 8, 9, 97, 98]), **CONSTS})
+        cases.append({'mode': 'record', 'torn': True, 'steps': h, 'warm': ctx.rng.choice([0, 0, 0, 7, 8, 9, 9, 98]), **CONSTS})
     total_hist = len(cases)
-    budget = 600 if tier == 'quick' else 12000
+    budget = 600 if tier == 'quick' else 4000
     chosen = vlib.sample_list(ctx.rng, cases, budget)
     ctx.exhaustive = (len(chosen) == total_hist)
     binary = ctx.go_build('dq')
@@ -41,7 +41,7 @@ def run(ctx):
         bcases.append({'mode': 'bytes', 'file': st['file'], 'appended': st['appended'], 'inflight': st['inflight'],
                        'infl': st['infl'], 'nadv': st['nadv'], 'modelOk': st['obs']['ok'],
                        'modelDelivered': st['obs']['delivered'], 'crashK': st['crashK']})
-    bbudget = 15000 if tier == 'quick' else 400000
+    bbudget = 15000 if tier == 'quick' else 150000
     bchosen = vlib.sample_list(ctx.rng, bcases, bbudget)
     res2, lines2 = ctx.replay(binary, bchosen, timeout=1500)
     ctx.absorb(res2, lines2)
